@@ -42,7 +42,8 @@ impl Minimizer {
         RunSpec {
             cfg: spec.cfg.clone(),
             ops: kept.iter().map(|&i| spec.ops[i].clone()).collect(),
-            faults: Self::renumber_faults(spec, kept),
+            faults: if spec.mode.is_some() { spec.faults.clone() } else { Self::renumber_faults(spec, kept) },
+            mode: spec.mode.clone(),
         }
     }
 
